@@ -361,12 +361,39 @@ def impl_run(ctx, c, allkeys, tmp, load_cls=None):
                          case=dict(desc, file=op[1][0], step=i),
                          expected=s1["saved"], observed=s2["saved"])
         elif op[0] == "add":
+            before = saved_lines(hk, sp)[1]
             hk.add(op[1].s, op[3], op[4].obj)
+            # oracle (docstring of add): the first entry naming the host with that key type gets the key,
+            # otherwise a new single-host entry is appended
+            want = list(before)
+            for j, (hs, t, b) in enumerate(want):
+                if op[1].s in hs and t == op[3]:
+                    want[j] = (hs, op[4].tname, op[4].b64)
+                    break
+            else:
+                want.append(([op[1].s], op[4].tname, op[4].b64))
+            got = saved_lines(hk, sp)[1]
+            if got != want:
+                ctx.fail("add-not-replace-or-append", "add() neither replaced the first entry of that host and "
+                         "key type nor appended a new entry", case=dict(desc, step=i), expected=want, observed=got)
         elif op[0] == "del":
+            before = saved_lines(hk, sp)[1]
             try:
                 del hk[op[1].s]
             except KeyError:
                 code = 7
+            want = list(before)
+            wcode = 7
+            for j, (hs, t, b) in enumerate(want):
+                if any(ref_lists(h, op[1].s) for h in hs):
+                    del want[j]
+                    wcode = 0
+                    break
+            got = saved_lines(hk, sp)[1]
+            if got != want or code != wcode:
+                ctx.fail("delete-not-first-listing-entry", "del hostkeys[host] did not remove exactly the first "
+                         "entry listing the host (KeyError when none does)", case=dict(desc, step=i),
+                         expected=[wcode, want], observed=[code, got])
         elif op[0] == "clear":
             hk.clear()
         else:
@@ -456,18 +483,16 @@ def run(ctx):
     ctx.prove()
     from paramiko.hostkeys import HostKeys
     keys = key_universe(ctx.repo, rng)
-    ncases = 2500 if ctx.thorough else 350
+    ncases = 2000 if ctx.thorough else 300
     tmp = tempfile.mkdtemp(prefix="verif-c41-")
     try:
         # ---- 0. the fixed witness of the defect (always exercised) ----------------
-        k0 = keys[0]
-        wit = {"names": [Name("a", 1), Name("b", 2), Name("c", 3)], "toks": [], "unknown": Name("zz", 40),
-               "keys": [k0, keys[5]], "hm": [], "ops": []}
-        a, b, c_ = wit["names"]
-        wit["ops"] = [("load", ("a,b,c %s %s\n" % (k0.tname, k0.b64), [([a, b, c_], k0)])),
-                      ("load", ("a %s %s\na %s %s\n" % (k0.tname, k0.b64, keys[5].tname, keys[5].b64),
-                                [([a], k0), ([a], keys[5])]))]
-        cases = [wit]
+        k0, k5 = keys[0], keys[5]
+        a, b, c_ = Name("a", 1), Name("b", 2), Name("c", 3)
+        f1 = ("a,b,c %s %s\n" % (k0.tname, k0.b64), [([a, b, c_], k0)])
+        f2 = ("a %s %s\na %s %s\n" % (k0.tname, k0.b64, k5.tname, k5.b64), [([a], k0), ([a], k5)])
+        cases = [{"names": [a, b, c_], "toks": [], "unknown": Name("zz", 40), "keys": [k0, k5], "hm": [],
+                  "ops": [("load", f)]} for f in (f1, f2)]
         for _ in range(ncases):
             cases.append(gen_case(rng, keys))
         rows = []
@@ -480,8 +505,8 @@ def run(ctx):
             ctx.count(("case", coq_case(c)), nontrivial=len(snap["lines"]) > 0, kind=kinds)
             for op in c["ops"]:
                 ctx.dist["op:" + op[0]] = ctx.dist.get("op:" + op[0], 0) + 1
-        ctx.sample({"history": describe(cases[1]), "impl": rows[1][1]})
         ctx.sample({"history": describe(cases[2]), "impl": rows[2][1]})
+        ctx.sample({"history": describe(cases[3]), "impl": rows[3][1]})
         bad = ctx.model_mismatches("run_case", "(hmap * list op * list name * list key)", rows, shard=120)
         for i in bad[:3]:
             ctx.disagree("HostKeys history differs from model", case=describe(cases[i]), impl=rows[i][1])
@@ -501,7 +526,7 @@ def run(ctx):
         # ---- 2. the pre-repair loop (model load_v0) against Python's list semantics --
         v0 = make_v0_class()
         rows0 = []
-        for _ in range(300 if ctx.thorough else 60):
+        for _ in range(300 if ctx.thorough else 40):
             names, toks, unknown, ks, hm = gen_universe(rng, keys)
             text, struct = gen_file(rng, names, toks, ks)
             d = tempfile.mkdtemp(dir=tmp)
